@@ -1,6 +1,8 @@
 import Driver.Util
+import Driver.Limits
 -- engines of work area Limits: import your Driver.<Engine> modules above and list them here
 namespace Driver.Reg.Limits
 def engines : List (String × IO UInt32) := [
+  ("limits", Driver.runEngine Driver.Limits.engine)
 ]
 end Driver.Reg.Limits
